@@ -46,6 +46,8 @@ def _case(draw):
     sched = draw(sc.schedules(max_len=100))
     case = {'n': n, 'edges': edges, 'outcomes': outs, 'workers': workers, 'sched': sched}
     case.update(draw(sc.extras(n)))
+    if draw(st.integers(0, 5)) == 0:
+        case['again'] = draw(st.sampled_from([1, 1, 2]))
     if back:
         case['back'] = back
     if init:
@@ -92,6 +94,8 @@ def _cause(case, rec):
     """Coarse cause features for the bucket signature."""
     if sc.is_cyclic(case):
         return 'cyclic'
+    if case.get('again'):
+        return 'scheduled-again'
     if rec.deaths and any(o in sc.OUTCOMES_UNMERGEABLE for o in case['outcomes']):
         return 'worker-died/unmergeable-update'
     if rec.deaths:
@@ -143,6 +147,8 @@ def run_case(case):
         out.labels.append('cyclic')
     if case.get('init'):
         out.labels.append('init-nonempty')
+    if case.get('again'):
+        out.labels.append('scheduled-again')
     if any(o in sc.OUTCOMES_MALFORMED for o in case['outcomes']):
         out.labels.append('malformed')
     if any(o in sc.OUTCOMES_UNMERGEABLE for o in case['outcomes']):
